@@ -118,7 +118,7 @@ def rle_lengths(rng, seq, style):
             out.append((v, 0, 0)); i += 1
     return out
 
-def dyn_block(bw, rng, toks, final, maxdepth=15, rle="mixed", fault=None, single_dist=False):
+def dyn_block(bw, rng, toks, final, maxdepth=15, rle="mixed", fault=None, single_dist=False, force_d_len=None):
     used_ll = sorted(set([256] + [t[1] for t in toks if t[0] == "lit"] + [257 + len_sym(t[1]) for t in toks if t[0] == "match"]))
     used_d = sorted(set(dist_sym(t[2]) for t in toks if t[0] == "match"))
     # pad with extra used symbols so that deep codes are reachable
@@ -180,6 +180,7 @@ def dyn_block(bw, rng, toks, final, maxdepth=15, rle="mixed", fault=None, single
     if fault == "incomplete_ll":
         s = max(used_ll, key=lambda x: ll_len[x]);
         if s != 256 and all(not (t[0] == "lit" and t[1] == s) for t in toks): ll_len[s] = 0
+    if force_d_len is not None: d_len = list(force_d_len) + [0] * (30 - len(force_d_len))      # a distance code-length set given by the caller (may be incomplete)
     hlit = max(257, max(i for i in range(286) if ll_len[i]) + 1)
     hdist = max(1, max([i for i in range(30) if d_len[i]] + [0]) + 1)
     if fault == "hlit30": hlit = 287
@@ -352,3 +353,21 @@ def packed_stream(rng, total=70000, block=300, pins=(65535, 66999, 68001)):
         have += n; ends.append(have)
     fixed_block(bw, [], True, None, rng)
     return bw.done(), ends
+
+
+def incomplete_dist_stream(rng, d_lens, n_lits=40, final_first=True):
+    """one (final) dynamic block of literals only whose distance alphabet has the given, typically INCOMPLETE, set of code lengths
+    (no distance code is used by the data), followed by nothing; a decoder either refuses the code set or decodes the literals and finishes"""
+    bw = BitWriter()
+    toks = [("lit", rng.choice([104, 101, 108, 111, 32])) for _ in range(n_lits)]
+    dyn_block(bw, rng, toks, True, maxdepth=7, rle="mixed", force_d_len=d_lens)
+    return bw.done()
+
+def deep_incomplete_dist_sets(rng, n):
+    """incomplete distance code-length sets with many codes longer than 10 bits spread over many 10-bit prefixes (the shape that needs the
+    most second-level lookup entries in a two-level decoding table); Kraft sum strictly below 1"""
+    out = [[12, 12, 15, 13, 11, 12, 11, 12, 12, 11, 15, 13, 12, 13, 7, 15, 11, 12, 12, 13, 13, 11, 12, 11, 13, 11, 14, 13, 13, 13]]
+    while len(out) < n:
+        ls = [rng.choice([11, 11, 12, 12, 12, 13, 13, 13, 14, 14, 15, 15, 7, 9]) for _ in range(30)]
+        if sum(1 << (15 - l) for l in ls) < (1 << 15): out.append(ls)
+    return out
